@@ -64,6 +64,12 @@ def main():
             results[name] = {"property": pid, "tier": tier, "status": status, "rc": r.returncode, "lines": lines,
                              "with_input": bool(lines) and not any("no-failing-input-found" in l for l in lines),
                              "replay": replay, "wall_s": round(time.time() - t0, 1)}
+            meta.setdefault("runs", {})[tier] = status
+            meta["runs"]["with_input"] = results[name]["with_input"] if status == "caught" else meta["runs"].get("with_input", False)
+            meta["runs"][f"{tier}_line"] = (lines[-1] if lines else "")[:300]
+            with open(os.path.join(d, "meta.json"), "w") as mf:
+                json.dump(meta, mf, indent=1)
+                mf.write("\n")
             print(f"{name}: {pid} {status} {lines[:1]} ({results[name]['wall_s']}s)")
             if status.startswith("error"):
                 print(r.stdout[-1500:])
